@@ -27,6 +27,7 @@ package dataset
 //@ unit dataset.processRefs
 //@   prop C12
 //@   requires ent != nil && len(jsonKey) == 24
+//@   frame-assumed preserves deduplicationStrategy.*, Entity.*, compactionInstruction.*, map[string]interface{}, Cell.*
 //@   safe slice
 //@   at call append#1 before
 //@     assert [C12:outgoing-reference-key-of-this-version] len($arg1) == 1 && len($arg1[0]) == 40 && encBE16($arg1[0], 0) == 3 && encBE64($arg1[0], 2) == ent.InternalID && encBE64($arg1[0], 10) == ent.Recorded && encBE64($arg1[0], 18) == predid && encBE64($arg1[0], 26) == relatedid && encBE16($arg1[0], 34) == (ent.IsDeleted ? 1 : 0) && encBE32($arg1[0], 36) == encBE32(jsonKey, 10)
@@ -40,8 +41,10 @@ package dataset
 //@ unit (*deduplicationStrategy).eval
 //@   prop C12
 //@   ghost equalG bool = false
-//@   requires d != nil && e != nil && d.changeBuffer != nil && d.counts != nil
+//@   requires d != nil && e != nil && d.changeBuffer != nil && d.counts != nil && len(jsonKey) == 24
 //@   requires !isFirstVersion ==> d.prev != nil
+//@   requires [remembered-key-is-a-version-key] d.prev != nil ==> len(d.prevJsonKey) == 24
+//@   ensures [remembered-key-is-a-version-key] d.prev != nil ==> len(d.prevJsonKey) == 24
 //@   ensures [first-version-is-kept-and-remembered] isFirstVersion ==> ret0 == nil && ret1 == nil && d.prev == e && d.prevJsonKey == jsonKey && d.prevEntityBytes == entityBytes
 //@   ensures [kept-version-becomes-the-comparison-base] ret1 == nil && !isFirstVersion && !equalG ==> d.prev == e && d.prevJsonKey == jsonKey && d.prevEntityBytes == entityBytes
 //@   ensures [deleted-version-leaves-the-comparison-base] ret1 == nil && !isFirstVersion && equalG ==> d.prev == old(d.prev) && d.prevJsonKey == old(d.prevJsonKey) && d.prevEntityBytes == old(d.prevEntityBytes)
